@@ -698,13 +698,18 @@ func (ls *LanceroSource) launchLanceroReader() {
 					if firstWord == 0 {
 						panic("not sure what to do here, but it wont self fix")
 					}
+					// The frame start found can lie more than one frame into the read (the words in front of
+					// it show no clear->set edge of the frame bit, e.g. after bytes were lost inside the first
+					// row). Everything in front of it is dropped; as before, whole frames' worth of bytes are
+					// cut off in total (front + end). This used to be panic("expect dropFromEnd>0").
+					dropFromEnd := dev.frameSize - dropFromStart%dev.frameSize
+					if len(b)-dropFromStart-dropFromEnd < dev.frameSize {
+						// Not one whole frame behind that frame start yet: leave the read in the card,
+						// the next read will show more.
+						continue
+					}
 					dev.card.ReleaseBytes(dropFromStart) // we could instead remember dropFromStart and add it
 					// to the later call to ReleaseBytes
-					dropFromEnd := dev.frameSize - dropFromStart
-					if dropFromEnd <= 0 {
-						fmt.Printf("firstWord %v, dropFromStart %v, dropFromEnd %v\n", firstWord, dropFromEnd, dropFromStart)
-						panic("expect dropFromEnd>0")
-					}
 					b = b[dropFromStart : len(b)-dropFromEnd]
 					fractionOfSampledPeriod := float64(dropFromEnd) / float64(dev.frameSize)
 					timeFix = timeFix.Add(-ls.samplePeriod * time.Duration(fractionOfSampledPeriod))
